@@ -244,6 +244,67 @@ func suiteC14(s *Suite, rng *Rng, tier string) {
 		if !amb && !acc {
 			s.Violate("C14:joint-proof-rejected", "proof list built with the keyshare server does not verify", d)
 		}
+		// ---- MergeProofP of both proof kinds against the model, both protocol versions (ProofP.P nil or not); missing
+		//      parts of the proof make the library panic, as the model says ----
+		for k := 0; k < 6; k++ {
+			var pP *gbig.Int
+			if rng.Intn(2) == 0 {
+				pP = rng.Bits(1 + rng.Intn(1024))
+			}
+			pc, ps := rng.Bits(256), rng.Bits(1+rng.Intn(900))
+			mpk := pks[rng.Intn(len(pks))]
+			mergeOut := func(f func() V) (out V) {
+				defer func() {
+					if r := recover(); r != nil {
+						out = panicV()
+					}
+				}()
+				return okV(f())
+			}
+			pd := &gabi.ProofD{C: rng.Bits(256), A: rng.Bits(1000), EResponse: rng.Bits(300), VResponse: rng.Bits(1500),
+				AResponses: map[int]*gbig.Int{0: rng.Bits(1 + rng.Intn(800))}, ADisclosed: map[int]*gbig.Int{}}
+			for j := 1; j < 5; j++ {
+				switch rng.Intn(3) {
+				case 0:
+					pd.AResponses[j] = rng.Bits(500)
+				case 1:
+					pd.ADisclosed[j] = rng.Bits(200)
+				}
+			}
+			switch rng.Intn(10) {
+			case 0:
+				pd.C = nil
+			case 1:
+				delete(pd.AResponses, 0)
+			case 2:
+				pd.AResponses[0] = nil
+			}
+			inD := L{dumpProofD(cloneProofD(pd), nil), pP, pc, ps}
+			outD := mergeOut(func() V {
+				pd.MergeProofP(&gabi.ProofP{P: cp(pP), C: cp(pc), SResponse: cp(ps)}, mpk)
+				return dumpProofDMain(pd)
+			})
+			s.Add(1403, "merge-D", false, inD, outD)
+			pu := &gabi.ProofU{U: rng.Bits(1 + rng.Intn(mpk.N.BitLen())), C: rng.Bits(256), VPrimeResponse: rng.Bits(1500),
+				SResponse: rng.Bits(1 + rng.Intn(800)), MUserResponses: map[int]*gbig.Int{}}
+			if rng.Intn(3) == 0 {
+				pu.MUserResponses[1+rng.Intn(3)] = rng.Bits(500)
+			}
+			switch rng.Intn(10) {
+			case 0:
+				pu.C = nil
+			case 1:
+				pu.SResponse = nil
+			case 2:
+				pu.U = nil
+			}
+			inU := L{dumpPk(mpk), dumpProofU(cloneProofU(pu)), pP, pc, ps}
+			outU := mergeOut(func() V {
+				pu.MergeProofP(&gabi.ProofP{P: cp(pP), C: cp(pc), SResponse: cp(ps)}, mpk)
+				return dumpProofU(pu)
+			})
+			s.Add(1404, "merge-U", false, inU, outU)
+		}
 		// ---- deviations of the second message from the committed first one ----
 		cpReq := func() gabi.KeyshareResponseRequest[string] {
 			r := respReq
